@@ -132,6 +132,8 @@ def harnesses(tier, seed):
     variants += [("float64", False, imgs[seed % 3])] if quick else [("float64", False, f) for f in imgs]
     # float32 abscissae of large magnitude (days since epoch, hourly data): still a float64 equally spaced grid
     variants += [("float32", False, lambda v: 19000.0 + v / 24.0)]
+    # spacings far below 1e-8, and a near-uniform (relative 1e-6) but non-uniform grid
+    variants += [("float64", False, lambda v: v * A.TINY), ("float64", False, lambda v: v * (1.0 + 1e-6 * ((int(v) % 3) - 1)))]
 
     def psets(st, n):
         if st.startswith("function") or st not in RC.WINDOW:
